@@ -1110,6 +1110,28 @@ func main() {
 	for _, n := range methodNames(calc, "TCalcTransport", "") {
 		o.strs("calcTransport_"+n, bodyShape(findFunc(calc, "TCalcTransport", n)), "m3/customtransports TCalcTransport."+n+" (signature, statements)")
 	}
+	// the receiving side (C16, "decoding again"): the generated readers, the processor, the read transport a server
+	// hands datagrams to, and the vendored protocol readers.  The Lean decoder is tied to them by the differential; their
+	// bodies are frozen as well, so that an edit shows up even where no sampled batch tells the difference.
+	for _, recv := range []string{"MetricValue", "MetricTag", "Metric", "MetricBatch", "M3EmitMetricBatchV2Args"} {
+		for _, n := range methodNames(m3v2, recv, "Read", "readField") {
+			o.strs("m3v2_"+recv+"_"+n, bodyShape(findFunc(m3v2, recv, n)), "m3/thrift/v2 ("+recv+")."+n+" (signature, statements)")
+		}
+	}
+	for _, recv := range []string{"M3Processor", "m3ProcessorEmitMetricBatchV2"} {
+		for _, n := range methodNames(m3v2, recv, "") {
+			o.strs("m3v2_"+recv+"_"+n, bodyShape(findFunc(m3v2, recv, n)), "m3/thrift/v2 ("+recv+")."+n+" (signature, statements)")
+		}
+	}
+	for _, n := range methodNames(calc, "TBufferedReadTransport", "") {
+		o.strs("calcTransport_bufferedRead_"+n, bodyShape(findFunc(calc, "TBufferedReadTransport", n)), "m3/customtransports TBufferedReadTransport."+n+" (signature, statements)")
+	}
+	for _, n := range methodNames(thr, "TCompactProtocol", "Read", "read") {
+		o.strs("thriftCompact_"+n, bodyShape(findFunc(thr, "TCompactProtocol", n)), "thrift TCompactProtocol."+n+" (signature, statements)")
+	}
+	for _, n := range methodNames(thr, "TBinaryProtocol", "Read", "read") {
+		o.strs("thriftBinary_"+n, bodyShape(findFunc(thr, "TBinaryProtocol", n)), "thrift TBinaryProtocol."+n+" (signature, statements)")
+	}
 
 	// complete bodies of every function of the files the hand-written models mirror (frozen per property in
 	// TallyProofs/Tie/CxxFrozen.lean, see tools/frozen_map.py)
